@@ -22,7 +22,7 @@ chk("C07", "model_checking",
 chk("C05", "model_checking",
     "ServerConn.tla (RFC 9051 state machine, backend gating, auth gating, capability advertisement) is model-checked for all 128 "
     "configurations {TLS}x{InsecureAuth}x{PREAUTH}x{TLSConfig}x{MOVE,NAMESPACE,UNAUTHENTICATE}; every transition of its graph (38 commands x "
-    "well-formed/malformed x every backend outcome) and every command sequence up to depth 2 (quick) / 3 (thorough) over command families "
+    "well-formed/malformed x every backend outcome) and every command sequence up to depth 2 (quick) / 3 (thorough) over command families (incl. STARTTLS with plaintext commands pipelined behind it: the handshake breaks, nothing is executed) "
     "is replayed on a real imapserver connection (real TLS where configured) with a scripted Session, comparing tagged class, BYE, continuation "
     "requests, the exact list of backend calls, the post-state (black-box probes) and advertised capabilities after every step; long random "
     "sequences are validated by ServerConnTrace with the gating invariants evaluated on every observed state.",
@@ -36,8 +36,10 @@ chk("C04", "model_checking",
     "4096 / above the APPEND limit x benign or command-like payload, plus literals after syntax errors and unknown commands, AUTHENTICATE, IDLE), what a "
     "conforming server may do (one tagged completion or close; '+' only for an accepted synchronising literal / AUTHENTICATE / IDLE; refused "
     "non-synchronising literal consumed or connection closed; payload only as the announced argument). TLC enumerates every unit sequence of depth 2 "
-    "(all 117 units, both start states, LITERAL+ on/off; thorough adds depth 3 over the refusal core); each is executed against a real server by a "
-    "mechanical literal-protocol client, the reaction is recorded and ServerFramingTrace judges every record. Independently of the spec the harness "
+    "(all units incl. FETCH-hdr, whose string argument is echoed in the response; both start states, LITERAL+ on/off, UTF8=ACCEPT enabled or not; thorough adds depth 3 over the "
+    "refusal core); each is executed against a real server by a "
+    "mechanical literal-protocol client, the reaction is recorded (including whether everything the server wrote was a whole well-formed response line, by an independent tokenizer) "
+    "and ServerFramingTrace judges every record. Independently of the spec the harness "
     "reports any response to a tag occurring only inside a payload, any backend call with the marker argument, stalls and malformed output.",
     "Trusts TLC and the harness tokenizer; oversized literals are announced (104857601) but never sent in full; a stall is 3 s of silence on an open connection; "
     "closing the connection is accepted wherever the property allows it.",
@@ -73,7 +75,8 @@ chk("C19", "model_checking",
     "goes as a raw SEARCH line through a real imapserver connection; the recorded struct is judged by TLC (SearchAlgTrace) on every message of a universe with a "
     "message on each side of every bound. Random criteria trees (depth <=3) and key lists (<=8) are recorded and judged the same way.",
     "Oracle is entirely in TLA+; the harness only builds, calls and records. Bounded-exhaustive over the stated catalogues and random beyond them. ModSeq, '$', "
-    "CHARSET and dynamic '*' sets are excluded; mixed time zones are not generated.",
+    "CHARSET and dynamic '*' sets are excluded. Operands are built in five time zones at any hour: the calendar date in the value's own location is what the "
+    "specification's day numbers stand for.",
     "TLA+ reference operators + TLC-enumerated vectors through the real code; recorded-result validation by TLC",
     "DESIGN.md 3 (C19)", "tlc+harness/cmd/searchalg")
 
@@ -89,8 +92,8 @@ chk("C20", "model_checking",
 
 chk("C06", "model_checking",
     "ServerLife.tla (connection life cycle with explicit reader modes line / literal / SASL / IDLE, disconnect enabled everywhere, resource guards "
-    "LitMax and AppendMax) is model-checked for exactly-once Session.Close and, under fairness, for complete cleanup after a disconnect. 7 valid "
-    "multi-command transcripts are cut at every byte offset (clean close, close after the server went quiet, reset) and token-level mutations, deep "
+    "LitMax and AppendMax) is model-checked for exactly-once Session.Close and, under fairness, for complete cleanup after a disconnect. 9 valid "
+    "multi-command transcripts (two of them for a LITERAL+ server: non-synchronising literals at and over 4096 octets in every buffered position, an APPEND over the limit) are cut at every byte offset (clean close, close after the server went quiet, reset) and token-level mutations, deep "
     "nesting and garbage are sent to a real server; the ordered life-cycle events of every connection (NewSession, every backend call with the size of what "
     "was buffered, IDLE goroutine start/stop, Session.Close, connection close) are recorded and ServerLifeTrace judges each trace, which must end clean. "
     "Server-log panics, leftover goroutines and connections that never end are reported directly.",
@@ -100,14 +103,17 @@ chk("C06", "model_checking",
     "DESIGN.md 3 (C06)", "tlc+harness/cmd/life")
 
 chk("C12", "model_checking",
-    "Client.tla is the meaning of the transcript: from the commands submitted and the lines a protocol-conformant server has sent (pipelines of RFC 9051 5.5, "
-    "out-of-order tagged completions OK/NO/BAD, untagged data, unsolicited EXISTS/EXPUNGE/FLAGS/PERMANENTFLAGS/FETCH/CLOSED/BYE anywhere) it computes the "
-    "connection state, the selected-mailbox summary, which command is complete with which status and which data each was given; TLC checks exactly-once "
-    "completion, isolation of NO/BAD and the state diagram. One behaviour per transition of the bounded graph is replayed against a real imapclient.Client "
-    "facing a scripted server; after every line (NOOP barrier) State(), Mailbox(), the unilateral handler, completion statuses and delivered data are compared. "
-    "Long random sessions are validated by ClientTrace.",
-    "Trusts TLC and the NOOP barrier (the client's reader is sequential); commands: NOOP LOGIN SELECT UNSELECT STATUS LIST SEARCH FETCH EXPUNGE LOGOUT; the mailbox summary "
-    "is compared only while no SELECT is in progress; refusal of a literal is covered by C18.",
+    "Client.tla is the meaning of the transcript: from the greeting (OK / PREAUTH), the commands submitted and the lines a protocol-conformant server has sent (pipelines of RFC 9051 5.5, "
+    "out-of-order tagged completions OK/NO/BAD with COPYUID/APPENDUID codes, untagged data, continuation request and DONE of IDLE, unsolicited EXISTS/EXPUNGE/FLAGS/PERMANENTFLAGS/FETCH/"
+    "METADATA/CLOSED/BYE anywhere) it computes the connection state, the selected-mailbox summary, which command is complete with which status and which data each was given, for the "
+    "whole command set of the client (30 kinds: fetch class incl. STORE and UID FETCH matched by UID, expunge and list classes, LIST-STATUS, SEARCH/ESEARCH/SORT/THREAD, CAPABILITY, "
+    "ENABLE, NAMESPACE, quota, metadata, COPY/MOVE/APPEND, IDLE, CLOSE, UNAUTHENTICATE, SELECT data incl. UIDNEXT/UIDVALIDITY/LIST); TLC checks exactly-once "
+    "completion, isolation of NO/BAD, data only to a command of the right kind and name, IDLE alone on the connection, and the state diagram on eight bounded instances. One behaviour per "
+    "transition of every instance (the view keeps the pending positions and the completions each pending command has witnessed) plus EVERY behaviour of a pipeline alphabet to depth 6/7 "
+    "is replayed against a real imapclient.Client facing a scripted server; after every line (NOOP barrier; handler events while an IDLE runs) State(), Mailbox(), the unilateral handler, "
+    "completion statuses and delivered data are compared. Long random sessions are validated by ClientTrace; the thorough tier adds simulation-mode behaviours of larger instances.",
+    "Trusts TLC and the NOOP barrier (the client's reader is sequential); the mailbox summary is compared only while no SELECT is in progress; the capability mirror (Caps()) is not "
+    "judged; the MOVE fallback (COPY+STORE+EXPUNGE) is not exercised; refusal of a literal is covered by C18.",
     "TLA+ spec + TLC exhaustive check; transition-coverage replay against the real client; trace validation of random sessions",
     "DESIGN.md 3 (C12)", "tlc+harness/cmd/client")
 
@@ -115,7 +121,7 @@ chk("C18", "model_checking",
     "ClientLit.tla specifies which representation of a string / literal argument is legal for what the server advertised (quoted: no CR/LF/NUL, 8-bit only with "
     "IMAP4rev2 or UTF8=ACCEPT enabled; {n+}: LITERAL+ or LITERAL-/rev2 up to 4096; {n}: always) and the synchronising-literal handshake (payload only after the "
     "continuation request, never after a tagged refusal, a refusal is local and the connection stays usable); TLC checks the handshake machine. Every case of "
-    "configuration x command x argument class x server reaction (1140) plus random configurations/bytes/lengths around 4096 is executed with a real client against a "
+    "configuration x command x argument class x server reaction (1140 + APPEND literals written with several Write calls) plus random configurations/bytes/lengths around 4096 is executed with a real client against a "
     "scripted server that records each argument token's representation and the real order of events (the continuation request is held back for a grace period); "
     "ClientLitTrace judges every record.",
     "'No payload before +' is observed with a 25 ms grace period: a violation can be missed on a very slow machine, never falsely reported. Only representation and ordering "
@@ -164,7 +170,8 @@ chk("C01", "model_checking",
     "space that every conforming representation reference-decodes to the canonical value consuming exactly its bytes. Every value of the space (strings to length 2/3 over 19 "
     "class representatives, 4095/4096/4097 length classes, names, flags, numbers, sets, trees to depth 3, nestings 999/1000/1001) is run through go-imap's real Encoder in all 16 "
     "modes and the peer's real decoding functions; WireTrace judges bytes, refusals, decoded value and unread bytes, and every representation TLC lists (including ones the "
-    "encoder never chooses) is fed to the real Decoder. Random values beyond the bounds are recorded and re-evaluated by TLC.",
+    "encoder never chooses) is fed to the real Decoder, each followed by two different continuations of the stream (a plain atom; a quoted string with an escaped quote, a literal "
+    "look-alike and a parenthesis). Random values beyond the bounds are recorded and re-evaluated by TLC.",
     "Trusts TLC, the overlay shim (pure re-export) and the harness's value<->Go-type mapping (symbolic points for 2^32-3..2^32-1, long strings as length classes). "
     "Canonicalisations compared modulo (both sides canonicalised). Continuation requests are pre-satisfied (the handshake is C18). Byte coverage beyond class representatives only "
     "through the random direction.",
@@ -175,8 +182,9 @@ chk("C13", "model_checking",
     "ClientConc.tla models imapclient's concurrency design at critical-section granularity (submitters from beginCommand to Wait, the reader, closeWithError run by the "
     "reader or by a submitter whose write failed, encMutex, the client mutex, delivery of streamed data) and TLC checks: no race on pendingCmds, at most one completion, "
     "nobody blocked forever, every maximal behaviour ends with every Wait returned; the as-found design (register before initialise) and the streaming design (submitter "
-    "completes a command the reader is handing data to) must fail their invariants on every run (vacuity guards / design-level evidence of the findings). Every maximal "
-    "behaviour (2 submitters: all 2270 + 6128 with streamed data; 3 submitters: sampled in thorough) is re-enacted on a real client with the verif hooks as gates, built with "
+    "completes a command the reader is handing data to), a literal-bearing submitter keeping encMutex after a refusal, and a reader that leaves a command pending between reading the "
+    "tag of its tagged response and completing it must fail their invariants on every run (vacuity guards / design-level evidence of the findings). Every maximal "
+    "behaviour (2 submitters: all 2270 + 6128 with streamed data; 3 submitters: sampled in thorough) is re-enacted on a real client with the verif hooks as gates (the reader is parked mid-response, whole line buffered, through the client's DebugWriter), built with "
     "-race; free-running stress runs (connection loss, Close, Caps/State/Mailbox readers) record the hook log, which ClientConcTrace validates.",
     "Data-race freedom is ultimately decided by the Go race detector on the TLC-enumerated schedules and stress runs; TLA+ supplies the schedules at hook granularity (7 hook "
     "points). Races inside one critical section or in library code are outside the model. One design-level defect (a submitter's closeWithError vs the reader's send) is a "
@@ -187,9 +195,11 @@ chk("C13", "model_checking",
 chk("C10", "model_checking",
     "ClientFault.tla specifies the blocking calls of a client session under faults (EOF, read error, failing writes, stall followed by the client's own timeout or by "
     "Close): success only with the tagged completion fully delivered (safety) and, under fairness, every issued call returns, Close returns and the reader exits "
-    "(liveness) - model-checked by TLC. Three session scripts covering every kind of blocking call (Wait; streaming Collect with body literals; STORE/EXPUNGE streams; "
-    "APPEND with continuation request; AUTHENTICATE exchange; IDLE; three pipelined commands answered out of order; LOGOUT) are run against a scripted server whose reply "
-    "stream is cut at every byte offset with each fault (quick: every 3rd offset plus all completion boundaries), with deadlines in virtual time; ClientFaultTrace judges every run.",
+    "(liveness) - model-checked by TLC. Six session scripts covering every kind of blocking call (Wait; streaming Collect with body literals; STORE/EXPUNGE streams; "
+    "APPEND with continuation request; AUTHENTICATE exchange; IDLE; three pipelined commands answered out of order; LOGOUT; unsolicited / repeated / UID-late FETCH data with literals "
+    "and no handler; Next with partly read literals and early Close, two streaming commands in flight; CAPABILITY, ENABLE, NAMESPACE, LIST-STATUS, quota, metadata, SORT, THREAD, "
+    "ESEARCH, MOVE, UID EXPUNGE, UNSELECT) are run against a scripted server whose reply "
+    "stream is cut at every byte offset with each fault (quick: every 3rd offset plus all completion boundaries), with deadlines in virtual time; ClientFaultTrace judges every run; a script that does not terminate without any fault is a verdict too.",
     "Deadlines are virtual (an armed read deadline fires at once); where the client has none the caller closes after 40 ms; 'does not return' = 4 s; STARTTLS transcripts are "
     "not in the corpus. One benign deviation (success once the CR of the tagged line is read) is a recorded known finding.",
     "TLA+ spec + TLC (safety and liveness); fault injection at every byte offset of scripted sessions; trace validation of recorded runs",
@@ -200,7 +210,8 @@ chk("C11", "model_checking",
     "generators '('^d up to 10^5/10^6) and classifies every line MustDeliver / MustError / Either; TLC checks that the classification is total and disjoint, that every kind is "
     "covered, and enumerates the mutation space (drop / duplicate / swap / replace / truncate, single and double). Each line is run against a fresh real imapclient.Client by a "
     "scripted server in sharded child processes (64 MiB stack, time and RSS limits) with every accessor of every returned value invoked; MustError lines must yield an error "
-    "and deliver nothing. Recorded random token lines are re-classified and judged by RespFuzzTrace; raw random bytes are monitored.",
+    "and deliver nothing. Resource families (growing nesting, numbers, literals, ranges, and literal headers that ANNOUNCE 2^12..2^28 octets which never arrive) are regressed against the "
+    "input size. Recorded random token lines are re-classified and judged by RespFuzzTrace; raw random bytes are monitored.",
     "The panic, unbounded-recursion and time/memory clauses are exploration-level: observed on real code under limits; the resource rules are coarse (64x growth for 4x input, "
     "128x allocation for 16x input) and cannot prove linearity. For mutated input the spec is a generator and classifier, not a behavioural model. A conformant line that is "
     "refused is only noted (delivery is C03's matter).",
@@ -224,10 +235,12 @@ chk("C14", "model_checking",
     "imapmemserver (78 sites). Locks.tla runs any mined command on 2-3 (thorough 4) sessions over up to 3 shared mailboxes; TLC explores every interleaving and prints every "
     "stuck state; each stuck signature is re-enacted on the real server through lock gates and counts only if the commands really never complete with the goroutines confirmed in "
     "sync.(*Mutex).Lock at the predicted sites. Random 2-8-session stress histories are validated by LocksTrace (mutual exclusion, nothing held across commands, every acquisition "
-    "context covered by the mined lock-order edges).",
+    "context covered by the mined lock-order edges). IdleNotify.tla specifies the wake-up channel of an idling session (producer holding the mailbox lock for a burst of "
+    "changes, consumer, client that reads / stops reading / ends its IDLE / drops; the blocking-send variant must get stuck); every scenario (client behaviour x burst size below / at / "
+    "above / far above the channel capacity) is run on the real server with the in-memory backend and judged by IdleNotifyTrace.",
     "Deadlock freedom is decided by TLC on mined templates after sound reductions (cross-checked against the unreduced 2-session model in thorough). Data-race freedom is NOT decided "
-    "by TLC: it is decided by the Go race detector on the re-enacted and stress schedules; races between accesses the drivers never overlap are not found. Blocking on channels or "
-    "socket writes is outside the model (clients drain).",
+    "by TLC: it is decided by the Go race detector on the re-enacted and stress schedules; races between accesses the drivers never overlap are not found. Of the waits that are not mutexes only the idle wake-up channel is "
+    "modelled (IdleNotify); socket writes to a client that never reads are bounded by the server's write timeout, not by the model.",
     "TLA+ lock-template spec + TLC bounded exhaustive interleaving; schedule re-enactment through lock gates; trace validation; race-detector stress",
     "DESIGN.md 3 (C14)", "tlc+harness/cmd/locks")
 
